@@ -128,9 +128,10 @@ Definition uq_lit (b : bytes) : option (bytes * bytes) :=
 (* encoding/json.Unmarshal(b, &s) for a string s: white space, then null (target unchanged) or a string literal,
    then white space only *)
 Definition spec_unmarshal_string (b : bytes) : sres bytes :=
-  match skip_ws b with
+  let t := skip_ws b in
+  match t with
   | 110 :: 117 :: 108 :: 108 :: r => match skip_ws r with [] => SNull [] | _ => SErr end
-  | t =>
+  | _ =>
     match uq_lit t with
     | Some (v, r) => match skip_ws r with [] => SOk v [] | _ => SErr end
     | None => SErr
@@ -199,5 +200,5 @@ Definition unmarshal_string_statement : Prop :=
 
 (* the round trip that links C01 and C02: decoding what the encoder wrote gives the sanitized string *)
 Definition string_round_trip_statement : Prop :=
-  forall (html : bool) (s e : bytes), wfb s = true -> len s < 2 ^ 61 ->
-    escape_string html s = Some e -> unmarshal_string e = SOk (sanitize s) [].
+  forall (html : bool) (s e : bytes), wfb s = true -> len s < 2 ^ 62 ->
+    escape_string html s = Some e -> len e < 2 ^ 62 -> unmarshal_string e = SOk (sanitize s) [].
